@@ -198,8 +198,10 @@ struct SerializationHelper {
     if CONSTEXPR_SINCE_CXX17 (SerializeTraits<T>::WIRE_TYPE ==
                               WireFormatLite::WIRETYPE_LENGTH_DELIMITED) {
       uint32_t length;
-      auto saved_limit =
-          is.PushLimit(is.ReadVarint32(&length) ? static_cast<int>(length) : 0);
+      if (ABSL_PREDICT_FALSE(!is.ReadVarint32(&length))) {
+        return false;
+      }
+      auto saved_limit = is.PushLimit(static_cast<int>(length));
       auto success = SerializeTraits<T>::deserialize(is, value);
       is.PopLimit(saved_limit);
       return success;
@@ -276,8 +278,10 @@ struct SerializationHelper {
     if CONSTEXPR_SINCE_CXX17 (SerializeTraits<T>::WIRE_TYPE ==
                               WireFormatLite::WIRETYPE_LENGTH_DELIMITED) {
       uint32_t length;
-      auto saved_limit =
-          is.PushLimit(is.ReadVarint32(&length) ? static_cast<int>(length) : 0);
+      if (ABSL_PREDICT_FALSE(!is.ReadVarint32(&length))) {
+        return false;
+      }
+      auto saved_limit = is.PushLimit(static_cast<int>(length));
       auto success = SerializeTraits<T>::deserialize(is, value);
       is.PopLimit(saved_limit);
       return success;
